@@ -109,6 +109,32 @@ chk('C20', 'TLA+ precedence function over the full configuration grid (BackendSe
     'DESIGN.md 5/C20')
 
 
+# what later rounds added on top of the TLC rows (driver-level sub-checks; see DESIGN.md section 15)
+ADDENDA = {
+ 'C01': 'Every result handed out (bytes(), bin()) is overwritten after use (core.scribble) and the message encoded again, so a cached or shared result shows.',
+ 'C02': 'Inputs are also given in other sequence carriers (arrays of every item width, memoryviews, ranges, bytearrays: check_buffer_carriers), as hex text in the documented spellings (check_hex_texts), with time by keyword and by position, and as sequences of device reads (check_device_sequences).',
+ 'C03': 'check_type_probes adds: anything but a documented type name refused by every entry point, the type given twice, one-shot iterables / views / alternative spellings as sysex data (what is stored must have been validated), attributes assigned after construction.',
+ 'C04': 'The same strings are fed through feed_byte, feed (every carrier), parse / parse_all and deep copies / forks of a parser mid-stream; a scale sub-check feeds long bursts and checks linear cost.',
+ 'C05': 'Empty chunks, forks of a parser between chunks, results stamped/overwritten between retrievals and data bytes that look like text are replayed as additional histories.',
+ 'C06': 'check_rtsysex: sysex payloads with real-time bytes at every offset; check_concat: concatenations parse back; results are overwritten between probes.',
+ 'C07': 'Files are also built both ways (constructor arguments and assignment after construction), saved twice with an edit in between, given one-shot (generator) tracks, frozen twins, every charset, and times that cannot be stored.',
+ 'C08': 'Header words (format, ntrks, division) are decided by the reference decoder for every type/track-count; every META_EVENTS entry is hand-encoded and loaded; a custom meta spec is registered and stored.',
+ 'C09': 'A custom meta spec, text values in every charset, bytes aliasing of data, += extension and data given in every carrier (incl. generators) are replayed against the same layouts.',
+ 'C10': 'Beyond the model-derived schedules, portrun.explore enumerates every schedule with <= K preemptions BY RE-EXECUTION on the real ports (echo, device, ioport, multi, pqueue, socket, userloop, sharedbuf) and validates each history against PortCore; vf/conc.py explores re-entrant calls with sys.settrace.',
+ 'C11': 'Close races (close/close, close/send, close/receive, close/iterate) are explored at line level with <= K preemptions on the real ports; half-closed IOPort, multi-member bursts, dead peers and failed writes (SendFail / FailedWriteIsNoOp in the specification) are replayed.',
+ 'C12': 'Inputs include note-off twins, track_name, UnknownMetaMessage, frozen messages, a million-tick delta and equal events / fractional times; the inputs must be left unchanged.',
+ 'C13': 'Tempo edits in place (incl. tempo 0), a consumer that mutates what it receives, long rests, type-2 files from every origin, time signatures and ticks_per_beat assigned later are replayed against the exact-rational model.',
+ 'C14': 'Frozen twins, default and assigned meta attributes (every documented attribute), text values, a 1 501-message track and awkward float times are round-tripped; MidiFile repr/eval compared structurally.',
+ 'C15': 'Plans are also run concurrently (threads) and through text values, copy overrides and hash of decoded values; unchecked objects (Bad values) follow the specified refusal of copy-with-overrides.',
+ 'C16': 'Held track lists, += / extend, a failed save before a save, edits during a pass (play / iteration) and play without meta messages are added to the histories.',
+ 'C17': 'Nested calls (a track or file object that itself loads/saves) follow the stack in the specification (SavedChain); text in 9 charsets, str subclasses, with-blocks, copy/pickle of files and a custom text meta spec are executed.',
+ 'C18': 'Big polls, two connections, multi-port bursts, sending to a dead peer, descriptor 0, a client replaced between polls and the PortServer accept path (loopback) are executed on real sockets with 8 s timeouts.',
+ 'C19': 'Failing writes come first (a failed write must not leave a file that reads as something else), mtime is pinned, and lists containing meta messages with data are refused as specified.',
+ 'C20': 'Real API names, IntFlag-like arguments, native IOPort failure, kwargs persistence, concurrent first use (fresh interpreters, on-disk module), toggling use_environ and set_backend(Backend(use_environ=False)) are executed.',
+}
+GENERAL = (' Before every replay batch core.stir() runs failing and half-finished operations of every feature in the same process, so state leaked by one feature shows in another.')
+
+
 def build(not_applicable):
     checks = []
     for pid in sorted(CHECKS):
@@ -120,7 +146,7 @@ def build(not_applicable):
             'evidence_file': 'evidence/%s.json' % pid,
             'replay_cmd_template': './check %s --replay {path}' % pid,
             'engine': 'tlc+replay',
-            'level_claimed': {'category': 'model_checking', 'text': c['text'],
+            'level_claimed': {'category': 'model_checking', 'text': c['text'] + ' ' + ADDENDA[pid] + GENERAL,
                               'design_ref': c['design']},
             'level_note': c['note'],
             'technique': c['technique'],
